@@ -212,37 +212,58 @@ variable {α β : Type}
 
 /-! ## from the payload list to the keyed list -/
 
-theorem distinctKeys_iff (keys : List (Bytes × Int)) :
-    distinctKeys keys = true ↔ keys.Nodup := by
-  induction keys with
-  | nil => simp [distinctKeys]
-  | cons k ks ih =>
-    simp only [distinctKeys, Bool.and_eq_true, Bool.not_eq_true', List.nodup_cons, ih]
-    constructor
-    · rintro ⟨h1, h2⟩
-      refine ⟨?_, h2⟩
-      intro hm
-      have : ks.contains k = true := List.contains_iff_mem.mpr hm
-      rw [this] at h1; cases h1
-    · rintro ⟨h1, h2⟩
-      refine ⟨?_, h2⟩
-      cases hc : ks.contains k with
-      | false => rfl
-      | true => exact absurd (List.contains_iff_mem.mp hc) h1
-
-/-- what `keyed` returns: the mapped payloads, with pairwise distinct (topic, partition) -/
+/-- what `keyed` returns: the mapped payloads -/
 theorem keyed_mapM (topic : α → Option Bytes) (partition : α → Int) (item : α → Option β) (xs : List α)
     (l : List (Bytes × (Int × β))) (h : keyed topic partition item xs = some l) :
-    xs.mapM (keyOne topic partition item) = some l ∧ (l.map (fun e => (e.1, e.2.1))).Nodup := by
-  unfold keyed at h
-  split at h
-  · cases h
-  · rename_i l' hl'
-    split at h
-    · rename_i hd
-      cases h
-      exact ⟨hl', (distinctKeys_iff _).mp hd⟩
-    · cases h
+    xs.mapM (keyOne topic partition item) = some l := h
+
+/-- the keys of the keyed list are the payloads' keys -/
+theorem keyed_keys (topic : α → Option Bytes) (partition : α → Int) (item : α → Option β) :
+    ∀ (xs : List α) (l : List (Bytes × (Int × β))), xs.mapM (keyOne topic partition item) = some l →
+      l.map (fun e => (some e.1, e.2.1)) = xs.map (fun x => (topic x, partition x)) := by
+  intro xs
+  induction xs with
+  | nil => intro l h; simp at h; subst h; rfl
+  | cons a as ih =>
+    intro l h
+    rw [List.mapM_cons] at h
+    cases hk : keyOne topic partition item a with
+    | none => simp [hk] at h
+    | some b =>
+      cases hs : as.mapM (keyOne topic partition item) with
+      | none => simp [hk, hs] at h
+      | some bs =>
+        simp [hk, hs] at h
+        subst h
+        unfold keyOne at hk
+        cases ht : topic a with
+        | none => simp [ht] at hk
+        | some t =>
+          cases hi : item a with
+          | none => simp [ht, hi] at hk
+          | some bb =>
+            simp only [ht, hi, Option.some.injEq] at hk
+            subst hk
+            simp [ih bs hs, ht]
+
+theorem nodup_of_map {γ δ : Type} (f : γ → δ) : ∀ (l : List γ), (l.map f).Nodup → l.Nodup := by
+  intro l
+  induction l with
+  | nil => intro _; exact List.nodup_nil
+  | cons a as ih =>
+    intro h
+    rw [List.map_cons, List.nodup_cons] at h
+    rw [List.nodup_cons]
+    exact ⟨fun hm => h.1 (List.mem_map_of_mem hm), ih h.2⟩
+
+theorem keyed_nodup (topic : α → Option Bytes) (partition : α → Int) (item : α → Option β) (xs : List α)
+    (l : List (Bytes × (Int × β))) (h : xs.mapM (keyOne topic partition item) = some l)
+    (hnd : (xs.map (fun x => (topic x, partition x))).Nodup) : (l.map (fun e => (e.1, e.2.1))).Nodup := by
+  rw [← keyed_keys topic partition item xs l h] at hnd
+  have : l.map (fun e => (some e.1, e.2.1)) = (l.map (fun e => (e.1, e.2.1))).map (fun k => (some k.1, k.2)) := by
+    simp [List.map_map, Function.comp_def]
+  rw [this] at hnd
+  exact nodup_of_map _ _ hnd
 
 theorem mapM_some_map {γ δ : Type} (f : γ → δ) (xs : List γ) : xs.mapM (fun x => some (f x)) = some (xs.map f) := by
   induction xs with
@@ -291,12 +312,12 @@ theorem group_fold (topic : α → Option Bytes) (partition : α → Int) :
 
 /-- **The grouping is the protocol's nesting** (per-partition order preserved, every payload once). -/
 theorem group_eq_lifted (topic : α → Option Bytes) (partition : α → Int) (xs : List α) (l0 : List (Bytes × (Int × α)))
-    (h : keyed topic partition (fun x => some x) xs = some l0) :
+    (h : keyed topic partition (fun x => some x) xs = some l0) (hnd : (l0.map (fun e => (e.1, e.2.1))).Nodup) :
     groupByTopicPartition topic partition xs = lifted l0 := by
   have hk := keyed_mapM topic partition (fun x => some x) xs l0 h
   unfold groupByTopicPartition
-  rw [group_fold topic partition xs l0 [] hk.1]
-  have := fold_lifted l0 ([] : List (Bytes × (Int × α))) (by simpa using hk.2)
+  rw [group_fold topic partition xs l0 [] hk]
+  have := fold_lifted l0 ([] : List (Bytes × (Int × α))) (by simpa using hnd)
   simpa [lifted, firstOccurrences] using this
 
 end Afkak.Wire
@@ -367,19 +388,14 @@ def topicMap (item : α → Option β) (tp : Option Bytes × List (Int × α)) :
 /-- what an encoder loop finds: the Python grouping of the payloads, item by item, is the `regroup`
     of the monitor's keyed list -/
 theorem group_mapM_regroup (topic : α → Option Bytes) (partition : α → Int) (item : α → Option β) (xs : List α)
-    (l : List (Bytes × (Int × β))) (h : keyed topic partition item xs = some l) :
+    (l : List (Bytes × (Int × β))) (h : keyed topic partition item xs = some l)
+    (hnd : (xs.map (fun x => (topic x, partition x))).Nodup) :
     (groupByTopicPartition topic partition xs).mapM (topicMap item) = some (regroup l)
     ∧ (groupByTopicPartition topic partition xs).length = (regroup l).length := by
   have hk := keyed_mapM topic partition item xs l h
-  obtain ⟨l0, h0, hkeys, hitems⟩ := keyed_relation topic partition item xs l hk.1
-  have hkeyed0 : keyed topic partition (fun x => some x) xs = some l0 := by
-    unfold keyed
-    rw [h0]
-    simp only
-    rw [if_pos]
-    rw [hkeys]
-    exact (distinctKeys_iff _).mpr hk.2
-  rw [group_eq_lifted topic partition xs l0 hkeyed0]
+  obtain ⟨l0, h0, hkeys, hitems⟩ := keyed_relation topic partition item xs l hk
+  have hnd0 := keyed_nodup topic partition (fun x => some x) xs l0 h0 hnd
+  rw [group_eq_lifted topic partition xs l0 h0 hnd0]
   have hF : l0.map (·.1) = l.map (·.1) := by
     have := congrArg (List.map (·.1)) hkeys
     simpa [List.map_map, Function.comp_def] using this
